@@ -226,6 +226,11 @@ func getAsync(c *Ctx) {
 			}
 		}
 		pq.add("PROV", "the waiter re-evaluates get() for the same consumer and position", okc && oko, "get(c, offset) with getAsync's parameters", gc)
+		// ... on EVERY wake-up: no evaluation of the predicate answers without consulting get() (a verdict taken from a
+		// position computed earlier goes stale when the cleaner shifts the buffer while the Get is parked)
+		skip := P.PathExists(ps[0], nil, an.IsReturn, an.Is(gc), nil)
+		pq.add("PATH", "every evaluation of the waiter's predicate consults get()", !skip,
+			pickS(!skip, "get(c, offset) lies on every path through the predicate", "the predicate can answer without calling get(): a wake-up can be discarded on a stale condition (e.g. an index cached before the cleaner shifted the buffer) and the blocked Get stays parked although its value is available"), gc)
 	} else {
 		g.undecided("PROV", "predicate", "expected one predicate closure calling get")
 	}
@@ -257,6 +262,7 @@ func init() {
 			waitCond(c)
 			getAsync(c)
 			consumerGet(c)
+			ensureRecheck(c, false) // a replaced cond strands the waiters parked on the old one
 			out := c.sel(func(o *an.Oblig) bool {
 				if isUndecided(o) || o.Rule == "ANCHOR" {
 					return true
